@@ -314,6 +314,8 @@ func genContents(t *rapid.T, c *BuildCase, o contentOpts) {
 			return p
 		}
 		udir := fmt.Sprintf("src/u%d", i)
+		atRoot := false
+		_ = atRoot
 		switch {
 		case kind <= 7: // file-like with some source form
 			e.Type = rapid.SampledFrom(fileTypes).Draw(t, lbl+".type")
@@ -332,14 +334,25 @@ func genContents(t *rapid.T, c *BuildCase, o contentOpts) {
 					e.Dst = spell(clean, false)
 				}
 			case "dir", "dirslash", "flat":
-				u := genUnit(t, udir, lbl+".u", 1, 5, form != "flat", false, allowMeta)
-				c.Tree = append(c.Tree, u.nodes...)
+				dirAtRoot := form != "flat" && rapid.IntRange(0, 7).Draw(t, lbl+".diratroot") == 0
+				if dirAtRoot {
+					// a directory source copied to "/": the files land below one top-level directory of their own
+					c.Tree = append(c.Tree, FNode{Rel: udir, Kind: "dir", Mode: 0o755, MTime: genMTime(t, lbl+".rootmtime")})
+					u := genUnit(t, fmt.Sprintf("%s/RootDir%d", udir, i), lbl+".u", 1, 5, true, false, allowMeta)
+					c.Tree = append(c.Tree, u.nodes...)
+				} else {
+					u := genUnit(t, udir, lbl+".u", 1, 5, form != "flat", false, allowMeta)
+					c.Tree = append(c.Tree, u.nodes...)
+				}
 				e.Src = udir
 				e.Form = "dir"
 				if form == "dirslash" {
 					e.Src = udir + "/"
 				}
 				e.Dst = spell(clean, false)
+				if dirAtRoot {
+					e.Dst = rapid.SampledFrom([]string{"/", "/", "//", "/."}).Draw(t, lbl+".rootspelling")
+				}
 				if form == "flat" {
 					e.Dst = clean + "/"
 					e.Form = "flat"
@@ -405,14 +418,27 @@ func genContents(t *rapid.T, c *BuildCase, o contentOpts) {
 		case kind <= 14 && o.trees:
 			e.Type = "tree"
 			e.Form = "tree"
-			u := genUnit(t, udir, lbl+".u", 1, 5, true, true, o.weirdNames)
-			c.Tree = append(c.Tree, u.nodes...)
+			atRoot = rapid.IntRange(0, 5).Draw(t, lbl+".atroot") == 0
+			if atRoot {
+				// a root file system skeleton replicated at the root of the package (`src: rootfs/  dst: /`): the
+				// generated unit hangs below one top-level directory of its own, so that it meets no other entry
+				c.Tree = append(c.Tree, FNode{Rel: udir, Kind: "dir", Mode: 0o755, MTime: genMTime(t, lbl+".rootmtime")})
+				u := genUnit(t, fmt.Sprintf("%s/RootTop%d", udir, i), lbl+".u", 1, 5, true, true, o.weirdNames)
+				c.Tree = append(c.Tree, u.nodes...)
+			} else {
+				u := genUnit(t, udir, lbl+".u", 1, 5, true, true, o.weirdNames)
+				c.Tree = append(c.Tree, u.nodes...)
+			}
 			e.Src = udir
 			if rapid.Bool().Draw(t, lbl+".srcslash") {
 				e.Src += "/"
 			}
 			e.FI = genFileInfo(t, lbl+".fi", false)
 			e.Dst = spell(clean, true)
+			if atRoot {
+				e.Dst = rapid.SampledFrom([]string{"/", "/", "//", "/.", "/./"}).Draw(t, lbl+".rootspelling")
+				clean = ""
+			}
 		case kind <= 16 && o.rpmOnlyTypes:
 			e.Type = "ghost"
 			e.Form = "none"
